@@ -44,6 +44,8 @@ partial def pExpr : Sexp → Option Expr
   | .list [.atom "not", e] => (pExpr e).map .not
   | .list [.atom "and", a, b] => do some (.and (← pExpr a) (← pExpr b))
   | .list [.atom "or", a, b] => do some (.or (← pExpr a) (← pExpr b))
+  | .list [.atom "distinct", neg, c, l] => do
+    some (.distinct (← neg.asBool?) (← c.asNat?) (← pInt? l))
   | .list [.atom "in", c, .list ls, neg] => do
     some (.inList (← c.asNat?) (← ls.mapM pInt?) (← neg.asBool?))
   | _ => none
@@ -79,6 +81,7 @@ def show3 : Option Bool → String
 
 def handle (op : String) (arg : Sexp) : String :=
   match op, arg with
+  | _, .list (.list (.atom "unsupported" :: _) :: _) => "unsupported"
   | "prune", .list [e, .list cs, .list bits] =>
     match pExpr e, cs.mapM pContainer with
     | some e, some cs =>
